@@ -10,19 +10,28 @@ const (
 	IF      = "if"
 )
 
-// ShouldIncludeNode validates and checks the value of a skip or include directive
+// ShouldIncludeNode validates and checks the value of the skip and include
+// directives of a node: it is left out if any skip directive says so, or any
+// include directive does not allow it.
 func ShouldIncludeNode(directives []*Directive) (bool, error) {
-	skipDirective := findDirectiveWithName(directives, SKIP)
-	if skipDirective != nil {
-		b, err := parseIf(skipDirective)
+	for _, directive := range directives {
+		if directive.Name != SKIP {
+			continue
+		}
+		b, err := parseIf(directive)
 		if err != nil || b {
 			return false, err
 		}
 	}
 
-	includeDirective := findDirectiveWithName(directives, INCLUDE)
-	if includeDirective != nil {
-		return parseIf(includeDirective)
+	for _, directive := range directives {
+		if directive.Name != INCLUDE {
+			continue
+		}
+		b, err := parseIf(directive)
+		if err != nil || !b {
+			return false, err
+		}
 	}
 
 	return true, nil
